@@ -26,10 +26,12 @@ package report
 //@   ensures err != nil && cntSt(stacks, 0) == 0 ==> len(event.Exception) == 1 && event.Exception[0].Module == domainOf(err) && event.Exception[0].Stacktrace == nil
 //@   ensures err != nil && cntSt(stacks, 0) > 0 ==> len(event.Exception) == cntSt(stacks, 0)
 //@   ensures err != nil ==> (forall j int :: 0 <= j && j < len(stacks) && stacks[j] != nil ==> event.Exception[cntSt(stacks, 0) - 1 - cntSt(stacks, j + 1)].Stacktrace == stacks[j] && event.Exception[cntSt(stacks, 0) - 1 - cntSt(stacks, j + 1)].Module == domainOf(err))
+//@   ensures err != nil ==> hasPrefix(event.Message, (withstack.olsOk(err) ? sprintf2("%s:%d: ", ifaceOf(withstack.olsFile(err)), ifaceOf(withstack.olsLine(err))) : "") + verboseErr)
 //@   callback visitAllMulti: invariant len(stacks) == $ncalls && len(details) == $ncalls
 //@                           invariant forall k int :: 0 <= k && k < $ncalls ==> details[k] == errbase.sdOf($call(k))
 //@   loop 1: isolated
 //@           invariant 0 - 1 <= i && i < len(details) && len(stacks) == len(details)
 //@           invariant len(exceptions) == cntSt(stacks, i + 1) && module == domainOf(err)
+//@           invariant hasPrefix(sbContent(longMsgBuf), (withstack.olsOk(err) ? sprintf2("%s:%d: ", ifaceOf(withstack.olsFile(err)), ifaceOf(withstack.olsLine(err))) : "") + verboseErr)
 //@           invariant forall j int :: i < j && j < len(stacks) && stacks[j] != nil ==> cntSt(stacks, j + 1) < len(exceptions) && 0 <= cntSt(stacks, j + 1)
 //@           invariant forall j int :: i < j && j < len(stacks) && stacks[j] != nil ==> exceptions[cntSt(stacks, j + 1)].Stacktrace == stacks[j] && exceptions[cntSt(stacks, j + 1)].Module == module
